@@ -304,6 +304,32 @@ def to_tenths(rng, values):
     return [rec(v) for v in values]
 
 
+def loosen_rings(spec, rng, prob=0.4):
+    """Polygons as they arrive from unvalidated sources: a further ring that is NOT inside the
+    first one (the library never validates; an element's box is the box of all its vertices).
+    Only for workloads whose oracle needs boxes, not areas or point-in-polygon (in place)."""
+    def extra_ring():
+        x0, x1 = _span(rng)
+        y0, y1 = _span(rng)
+        return _rect_ring(x0, y0, x1, y1, rng.random() < 0.5)
+    hit = False
+    for c in spec["cols"]:
+        if c["kind"] not in ("polygon", "multipolygon") or not c["subtype"].startswith("float"):
+            continue
+        for i, v in enumerate(c["values"]):
+            if not v or rng.random() >= prob:
+                continue
+            v = [list(r) for r in v] if c["kind"] == "polygon" else \
+                [[list(r) for r in poly] for poly in v]
+            if c["kind"] == "polygon":
+                v.append(extra_ring())
+            else:
+                v[rng.randrange(len(v))].append(extra_ring())
+            c["values"][i] = v
+            hit = True
+    return hit
+
+
 def make_collinear(spec, rng):
     """Flatten one axis of the active geometry column of a frame spec (in place)."""
     c = col_of(spec, spec["active"])
